@@ -174,7 +174,7 @@ pub fn indent() -> ZooLang {
         .rule("block_stmt", seq(vec![field("head", sym("name")), s(":"), sym("_newline"), sym("_indent"), field("body", sym("body")), sym("_dedent")]))
         .rule("body", rep1(sym("_stmt")))
         .rule("name", pat("[a-z]+"))
-        .extras(vec![pat("[ \\t]")]);
+        .extras(vec![pat("\\s")]);
     ZooLang {
         name: "indent", spec: spec(g, Some(INDENT_SCANNER)),
         lexemes: vec!["a", "b:", "\n", " ", "  ", ":"],
